@@ -12,6 +12,10 @@ out = tempfile.mktemp(suffix=".xml", dir="/var/tmp")
 env = dict(os.environ)
 env.pop("ARMI_VERIF_TRACE", None)
 cmd = base["cmd"].replace("<file>", out)
+if "--repo" in sys.argv:
+    repo = sys.argv[sys.argv.index("--repo") + 1]
+    cmd = cmd.replace("cd /repo", "cd " + repo)
+    env["PYTHONPATH"] = repo
 subprocess.run(cmd, shell=True, env=env, stdout=subprocess.DEVNULL if "-q" in sys.argv else None)
 passed = set()
 for tc in ET.parse(out).getroot().iter("testcase"):
